@@ -228,6 +228,13 @@ def record_planning(name, net, eq, data, chk, policy='first_fit'):
                 tr['unusable'][o.oms_id] = intervals([not c for c in common], b.freq_index)
             else:
                 tr['unusable'][o.oms_id] = intervals([v is not BitmapValue.FREE for v in b.bitmap], b.freq_index)
+        # the guard limits are configuration too: the network band (lowest / highest amplifier band edge) shrunk by the
+        # guard band, projected with the property's rule (a slot is inside when its centre is)
+        allb = [x for o in oms_list for e in o.el_list if isinstance(e, (Edfa, Multiband_amplifier)) for x in bands_of(e)]
+        if allb:
+            tr['idxmin'] = fidx(min(x['f_min'] for x in allb) + b0.guardband, 'lo')
+            tr['idxmax'] = fidx(max(x['f_max'] for x in allb) - b0.guardband, 'hi')
+            tr['code_guard'] = [b0.freq_index_min, b0.freq_index_max]
         evs = []
         for pth, rq, rpth in zip(pths, rqs, rpths):
             pre = hasattr(rq, 'blocking_reason')
@@ -375,7 +382,16 @@ def run(chk):
         if key in seen:
             continue
         seen.add(key)
-        ok = replay_history(bench, js, chk, policy)
+        try:
+            ok = replay_history(bench, js, chk, policy)
+        except Machinery:
+            raise
+        except Exception as e:                                  # noqa
+            # the bench hands OMS.update_spectrum a band whose edges sit a quarter slot outside the outermost slot
+            # centres and a bitmap of exactly those slots: refusing it means the band edges are mapped to other slots
+            chk.violation(f'B2|bench|real OMS refuses a consistent (band, bitmap)|{type(e).__name__}',
+                          dict(exception=f'{type(e).__name__}: {e}', grid=[bench.nmin, bench.nmax]))
+            break
         steps += len(js['hist'])
         chk.case(key, nontrivial=any(h['out']['st'] == 'served' for h in js['hist']))
         if ok:
